@@ -47,8 +47,30 @@ def _seq(kind, ids):
     return list(ids)
 
 
+def _byid_mismatch(t, s):
+    """the by-id accessors (get_value_by_ids, data, metadata(id), index) must agree with the positional content"""
+    for ax, key, mk in (('observation', 'oids', 'omd'), ('sample', 'sids', 'smd')):
+        for k, i in enumerate(s[key]):
+            if not t.exists(i, axis=ax) or t.index(i, axis=ax) != k:
+                return 'index of %s %r' % (ax, i)
+            m = t.metadata(i, axis=ax)
+            if (None if m is None else T.plain(dict(m))) != (None if s[mk] is None else s[mk][k]):
+                return 'metadata(%r, %s)' % (i, ax)
+    for i, o in enumerate(s['oids']):
+        for j, x in enumerate(s['sids']):
+            if float(t.get_value_by_ids(o, x)) != s['mat'][i][j]:
+                return 'get_value_by_ids(%r, %r)' % (o, x)
+        if s['sids'] and [float(v) for v in t.data(o, axis='observation', dense=True)] != s['mat'][i]:
+            return 'data(%r)' % o
+    return None
+
+
 def _ok(t):
-    return ['ok', T.norm_snap(T.snapshot(t))]
+    s = T.norm_snap(T.snapshot(t))
+    bad = _byid_mismatch(t, s)
+    if bad:
+        return ['incoherent', bad]
+    return ['ok', s]
 
 
 def run_impl(c):
@@ -210,6 +232,8 @@ def _ident(x):
 def oracle(c, obs):
     if obs and obs[0] == 'crash':
         return ['implementation crashed: %s' % obs[1:]]
+    if obs and obs[0] == 'incoherent':
+        return ['the result answers by id differently than by position: %s' % obs[1]]
     k = c['kind']
     orig = canon(T.norm_snap(T.spec_content(c['spec'])))
     ax = c.get('axis')
